@@ -397,6 +397,18 @@ pub fn gen_boundary(i: usize, rng: &mut StdRng) -> Option<Prog> {
             ops.push(plain("c".into(), all));
             Prog { ops }
         }
+        8 => {
+            // more than 1024 registrations on one builder (short stages: a barrier every few systems)
+            let mut ops = Vec::new();
+            for k in 0..1030 {
+                let deps = if k > 0 && k % 9 == 0 { vec![format!("m{}", k - 1)] } else { vec![] };
+                ops.push(Op::Add { r: vec![], w: if k % 3 == 0 { vec![1 + (k % 5) as Res] } else { vec![] }, deps, t: 3, name: format!("m{}", k) });
+                if k % 6 == 5 {
+                    ops.push(Op::Barrier);
+                }
+            }
+            Prog { ops }
+        }
         _ => return None,
     })
 }
@@ -543,6 +555,8 @@ pub fn gen_prog(rng: &mut StdRng, cfg: &GenCfg, depth: usize, prefix: &str) -> P
                 let twin = names.choose(rng).cloned().and_then(|b| sanitise_twin(rng, &b)).filter(|t| !names.contains(t));
                 match twin {
                     Some(t) if rng.gen_bool(0.5) => deps.insert(pos, t),
+                    // the placeholder the plan printer shows for an unnamed system is not a name either
+                    _ if rng.gen_bool(0.25) => deps.insert(pos, format!("unnamed_system_{}", rng.gen_range(0..=k + 1))),
                     _ => deps.insert(pos, format!("{}nosuch {}", prefix, k)),
                 }
             } else {
